@@ -4,7 +4,7 @@
    cpu_times_percent, Process.cpu_percent), specification: C07/Spec.v (kernel printer
    k_stat of /proc/stat, tick-level formulas).  Seconds and percentages are exact
    rationals; float rounding is outside the model (compared within one rounding step). *)
-From PV Require Import C07.Spec C07.ProofsParse C07.ProofsArith C07.ProofsState C07.ProofsScript.
+From PV Require Import C07.SpecLife C07.ProofsParse C07.ProofsArith C07.ProofsState C07.ProofsScript C07.ProofsLife.
 Local Open Scope Q_scope.
 
 (* ---- cpu_times(): every /proc/stat the kernel can print (any CPUs, nf >= 7 decimal counters
@@ -166,6 +166,71 @@ Print Assumptions C07_no_previous_sample_zero.
 Theorem C07_proc_negative_interval : forall clk st e, pe_iv e = INeg -> proc_step clk st e = (st, Exc ValueError).
 Proof. exact proc_negative. Qed.
 Print Assumptions C07_proc_negative_interval.
+
+(* ---- THREAD LIFETIMES.  Threads are named by an identity that is never reused.  A history
+   (lev) is made of calls and of the events "thread starts and the OS gives it ident i", "thread
+   exits", "its threading.Thread object is collected".  The code as it is now (/repo d2712e2)
+   keeps the previous samples in thread-local storage: a call is keyed by the calling thread
+   (lev_event); the code before that commit keyed four dicts by ident (lev_event_ident, LEGACY). *)
+
+(* lifetime events are nothing to the code (no hook): the state after them is the state before *)
+Theorem C07_lifetime_events_are_noops : forall clk st x levs,
+  lev_event x = None -> run_l clk st (map lev_event (x :: levs)) = run_l clk st (map lev_event levs).
+Proof. exact life_events_noop. Qed.
+Print Assumptions C07_lifetime_events_are_noops.
+
+(* THE SCRIPT THEOREM OVER LIFETIME HISTORIES, full strength: whatever threads start and exit,
+   whichever ident the OS hands to whom, whenever Thread objects are collected, the results of
+   the code are those demanded thread by thread -- each thread against its own previous sample of
+   the series, the import counting for the importing thread only, a thread without a sample
+   (new thread, recycled ident or not) against "now".  Only the hypotheses of
+   C07_script_all_threads remain (field count, CPU set, no sub-second cpu_times_percent pair). *)
+Theorem C07_script_with_thread_lifetimes : forall clk nf ids m levs,
+  imp_wf nf ids (imp_th m) = true -> script_ok clk nf ids (imp_th m) [] (map relab (calls levs)) = true ->
+  Forall2 (out_eq sres_eq)
+          (run_l clk (sys_start clk (option_map (fun x => (fst x, k_stat (snd x))) (imp_th m))) (map lev_event levs))
+          (spec_run clk (imp_th m) [] (map relab (calls levs))).
+Proof. exact life_script. Qed.
+Print Assumptions C07_script_with_thread_lifetimes.
+
+(* LEGACY, ident-keyed dicts.  What the OS guarantees (life_wf: threads alive at the same time
+   have different idents, a thread keeps its ident and starts once, only live threads call) is
+   enough for THE BASELINE INVARIANT: after any history of starts, exits, ident hand-overs,
+   Thread-object collections and calls, a live thread that has a sample of its own in a series
+   (find_th, by identity) is looked up BY IDENT to exactly that sample ... *)
+Theorem C07_own_baseline_kept : forall al0 pre th e post f p h,
+  al_wf al0 = true -> life_wf al0 (map fst al0) (pre ++ LCall th e :: post) = true ->
+  find_th th f p (snd (life_run al0 (map fst al0) [] pre)) = Some h ->
+  find_id (ke_tid e) f p (snd (life_run al0 (map fst al0) [] pre)) = Some h.
+Proof. exact own_baseline_kept. Qed.
+Print Assumptions C07_own_baseline_kept.
+
+(* ... so the ident-keyed code met the thread-by-thread demand on every history in which no
+   non-blocking call by a thread WITHOUT a sample of its own found one under its ident (fresh_ok) ... *)
+Theorem C07_legacy_ident_keyed_script : forall clk nf ids m al0 levs,
+  al_wf al0 = true -> life_wf al0 (map fst al0) levs = true -> fresh_ok m [] levs = true ->
+  imp_wf nf ids (imp_id m) = true -> script_ok clk nf ids (imp_id m) [] (map snd (calls levs)) = true ->
+  Forall2 (out_eq sres_eq)
+          (run_l clk (sys_start clk (option_map (fun x => (fst x, k_stat (snd x))) (imp_id m))) (map lev_event_ident levs))
+          (spec_run clk (imp_th m) [] (map relab (calls levs))).
+Proof. exact legacy_life_script. Qed.
+Print Assumptions C07_legacy_ident_keyed_script.
+
+(* ... and failed outside (the defect repaired by d2712e2): a thread given the ident of a dead
+   thread was measured, at its first non-blocking cpu_percent(), against the dead thread's sample
+   (100/3) where 0 is demanded -- and 0 is what the code as it is now answers. *)
+Theorem C07_ident_reuse_refuted :
+  exists clk nf ids m al0 levs,
+    al_wf al0 = true /\ life_wf al0 (map fst al0) levs = true
+    /\ imp_wf nf ids (imp_id m) = true /\ script_ok clk nf ids (imp_id m) [] (map snd (calls levs)) = true
+    /\ fresh_ok m [] levs = false
+    /\ (exists q, nth_error (run_l clk (sys_start clk (option_map (fun x => (fst x, k_stat (snd x))) (imp_id m))) (map lev_event_ident levs)) 1
+                  = Some (Val (RNum q)) /\ ~ (q == 0))
+    /\ nth_error (spec_run clk (imp_th m) [] (map relab (calls levs))) 1 = Some (Val (RNum 0))
+    /\ nth_error (run_l clk (sys_start clk (option_map (fun x => (fst x, k_stat (snd x))) (imp_th m))) (map lev_event levs)) 1
+       = Some (Val (RNum 0)).
+Proof. exact ident_reuse_refuted. Qed.
+Print Assumptions C07_ident_reuse_refuted.
 
 (* ---- Process.cpu_percent: 0.0 on the first (non-blocking) call of an object *)
 Theorem C07_proc_first_call : forall clk e,
